@@ -23,6 +23,8 @@ type SpecEnv struct {
 	inOld bool
 	entryParams bool // parameter names denote entry values (requires/ensures)
 	held  map[string]bool // mutexes held at the evaluation point (nil: assume context)
+	qvars map[string]bool // SMT names of quantifier variables in scope
+	pats  []Term          // candidate triggers: (select a v) with v a quantifier variable
 	errs  []string
 }
 
@@ -155,14 +157,35 @@ func (env *SpecEnv) quant(x *Quant) *Val {
 		env.bound[x.Var] = &Val{T: q(vname), Typ: t}
 		guard = vc.rangeFact(q(vname), t, 0)
 	}
+	if env.qvars == nil {
+		env.qvars = map[string]bool{}
+	}
+	env.qvars[q(vname)] = true
+	savedPats := env.pats
+	env.pats = nil
 	body := vc.term(env.eval(x.Body))
+	pats := env.pats
+	env.pats = savedPats
+	delete(env.qvars, q(vname))
 	if had {
 		env.bound[x.Var] = saved
 	} else {
 		delete(env.bound, x.Var)
 	}
 	if x.Forall {
-		return boolVal(fmt.Sprintf("(forall ((%s %s)) %s)", q(vname), sortS, implies(guard, body)))
+		inner := implies(guard, body)
+		var ps []string
+		seen := map[string]bool{}
+		for _, p := range pats {
+			if strings.Contains(p, q(vname)) && !seen[p] {
+				seen[p] = true
+				ps = append(ps, ":pattern ("+p+")")
+			}
+		}
+		if len(ps) > 0 && sortS == "Int" {
+			return boolVal(fmt.Sprintf("(forall ((%s %s)) (! %s %s))", q(vname), sortS, inner, strings.Join(ps, " ")))
+		}
+		return boolVal(fmt.Sprintf("(forall ((%s %s)) %s)", q(vname), sortS, inner))
 	}
 	return boolVal(fmt.Sprintf("(exists ((%s %s)) %s)", q(vname), sortS, and(guard, body)))
 }
@@ -372,6 +395,9 @@ func (env *SpecEnv) selector(v *Val, name string) *Val {
 	}
 	obj, path, _ := types.LookupFieldOrMethod(t, true, pkg, name)
 	if _, ok := obj.(*types.Var); !ok || len(path) == 0 {
+		if gp := env.ghostFieldPtr(v, name); gp != nil {
+			return vc.loadPtr(gp, env.curHeap())
+		}
 		env.fail("no field %s in %s", name, t)
 	}
 	cur := v
@@ -407,12 +433,29 @@ func (env *SpecEnv) index(v, i *Val) *Val {
 	if v.Typ == nil {
 		env.fail("index on untyped value")
 	}
+	note := func(t Term, idx Term) {
+		if env.qvars[idx] {
+			env.pats = append(env.pats, t)
+			return
+		}
+		// offset + variable: still a usable trigger
+		if strings.HasPrefix(idx, "(+ ") {
+			parts := strings.Fields(strings.TrimSuffix(idx[3:], ")"))
+			if len(parts) == 2 && env.qvars[parts[1]] && !strings.Contains(parts[0], "(") {
+				env.pats = append(env.pats, t)
+			}
+		}
+	}
 	switch t := v.Typ.Underlying().(type) {
 	case *types.Slice:
 		sp := vc.slice(v)
-		return &Val{T: sel(sel(h.Get(vc.memName(t.Elem())), sp.Base), add(sp.Off, it)), Typ: t.Elem()}
+		r := sel(sel(h.Get(vc.memName(t.Elem())), sp.Base), add(sp.Off, it))
+		note(r, add(sp.Off, it))
+		return &Val{T: r, Typ: t.Elem()}
 	case *types.Array:
-		return &Val{T: sel(vc.term(v), it), Typ: t.Elem()}
+		r := sel(vc.term(v), it)
+		note(r, it)
+		return &Val{T: r, Typ: t.Elem()}
 	case *types.Basic:
 		return &Val{T: "(str-at " + vc.term(v) + " " + it + ")", Typ: types.Typ[types.Byte]}
 	case *types.Map:
@@ -633,6 +676,29 @@ func (env *SpecEnv) call(x *CallE) *Val {
 	}
 	env.fail("unknown spec function %s", fname)
 	return nil
+}
+
+// ghostFieldPtr locates a declared ghost field of the object v points to.
+func (env *SpecEnv) ghostFieldPtr(v *Val, name string) *Ptr {
+	vc := env.VC()
+	t := v.Typ
+	if pt, ok := t.Underlying().(*types.Pointer); ok {
+		t = pt.Elem()
+	}
+	tq := typeQual(t)
+	if i := strings.LastIndex(tq, "/"); i >= 0 {
+		tq = tq[i+1:]
+	}
+	gf, ok := vc.P.CS.GhostFields[tq+"."+name]
+	if !ok {
+		return nil
+	}
+	gt, err := vc.P.ResolveType(gf.Pkg, gf.GoType)
+	if err != nil {
+		env.fail("ghost field %s: %v", name, err)
+	}
+	hn := vc.regHeap("GF|"+tq+"|"+name, "(Array Int "+vc.sortOf(gt)+")")
+	return &Ptr{Heap: hn, Ref: vc.term(v), SlotT: gt, Elem: gt}
 }
 
 // addrOf evaluates x.f to the address of field f (an interior pointer).
@@ -1001,6 +1067,9 @@ func (env *SpecEnv) modLocs(e Expr) []modLoc {
 		}
 		_, path, _ := types.LookupFieldOrMethod(t, true, pkg, x.Name)
 		if len(path) == 0 {
+			if gp := env.ghostFieldPtr(base, x.Name); gp != nil {
+				return []modLoc{{Heap: gp.Heap, Ref: gp.Ref}}
+			}
 			env.fail("modifies: no field %s", x.Name)
 		}
 		p := vc.fieldPtr(base, path[0])
